@@ -71,6 +71,13 @@ func (r *udpRelay) close() { r.conn.Close(); <-r.done }
 // newTransport builds the connection a scenario drives: in-memory through the verif hook, or — in UDP mode — a real
 // DialV2 connection to a relay that consults the same send function. timeout is the per-attempt timeout.
 func newTransport(send bmc.VerifSendFunc, timeout time.Duration) (*bmc.V2SessionlessTransport, func()) {
+	return newTransportOpts(send, timeout, false)
+}
+
+// defaults: over real sockets, dial with NO options and set the attempt timeout afterwards with SetTimeout — the other half of the
+// public API for it (seed C19-B17: connections dialled without options shared one package-level configuration, which SetTimeout
+// on any of them rewrote for all)
+func newTransportOpts(send bmc.VerifSendFunc, timeout time.Duration, defaults bool) (*bmc.V2SessionlessTransport, func()) {
 	if !useUDP {
 		return bmc.VerifNewV2SessionlessTransport(send, timeout, &backoff.ZeroBackOff{}), func() {}
 	}
@@ -107,7 +114,14 @@ func newTransport(send bmc.VerifSendFunc, timeout time.Duration) (*bmc.V2Session
 			r.seen.Add(1)
 		}
 	}()
-	t, err := bmc.DialV2(c.LocalAddr().String(), bmc.WithTimeout(udpAttemptTimeout))
+	var t *bmc.V2SessionlessTransport
+	if defaults {
+		if t, err = bmc.DialV2(c.LocalAddr().String()); err == nil {
+			t.SetTimeout(udpAttemptTimeout)
+		}
+	} else {
+		t, err = bmc.DialV2(c.LocalAddr().String(), bmc.WithTimeout(udpAttemptTimeout))
+	}
 	if err != nil {
 		panic("udp relay: dial: " + err.Error())
 	}
